@@ -623,6 +623,9 @@ func (g *gen) floatLit(usOdds int) {
 		if g.r().Chance(1, 5) {
 			es = "0" + es
 		}
+		if g.r().Chance(1, 6) { // exponent digits of any number: Go's cap e<10000 must stay inert below 100000
+			es = strings.Repeat("0", g.r().Range(1, 12)) + es
+		}
 		esg, eneg := g.randSign(true)
 		if eneg {
 			e = -e
@@ -638,6 +641,116 @@ func (g *gen) floatLit(usOdds int) {
 	g.emit(g.litOp(), common.Hex(text), kind, show(x))
 }
 
+// expectedHexFloat: correctly rounded value of ±mant·2^e2 (big.Rat.Float64, independent of strconv).
+func expectedHexFloat(neg bool, mant *big.Int, e2 int) float64 {
+	q := new(big.Rat).SetInt(mant)
+	p := new(big.Rat).SetInt(new(big.Int).Lsh(big.NewInt(1), uint(abs(e2))))
+	if e2 >= 0 {
+		q.Mul(q, p)
+	} else {
+		q.Quo(q, p)
+	}
+	x, _ := q.Float64()
+	if neg {
+		x = math.Copysign(x, -1)
+	}
+	return x
+}
+
+// generalFloatLit: the float syntaxes beyond the documented ones that Grammar.lean's GFloatLit
+// covers, with the value computed from the digits: hex floats (0x1.8p3, 0X_a.p-2, 0x.8p1),
+// decimal literals without integer part (.5) or without fraction digits (5.).
+func (g *gen) generalFloatLit(usOdds int) {
+	sg, neg := g.randSign(true)
+	hex := g.r().Chance(2, 3)
+	base := 10
+	if hex {
+		base = 16
+	}
+	text := sg
+	if hex {
+		text += common.Pick(g.r(), []string{"0x", "0X"})
+	}
+	mant := new(big.Int)
+	fracDigits := 0
+	form := g.r().Intn(4) // 0: D  1: D.  2: D.D  3: .D
+	if !hex && form == 0 {
+		form = 1
+	}
+	if form != 3 {
+		ip := g.randDigits(base, g.r().Range(1, 18), false, usOdds)
+		if hex && usOdds > 0 && g.r().Chance(1, 6) {
+			text += "_"
+		}
+		text += ip.text
+		mant.Set(ip.val)
+	}
+	if form != 0 {
+		text += "."
+	}
+	if form >= 2 {
+		fp := g.randDigits(base, g.r().Range(1, 18), false, usOdds)
+		text += fp.text
+		mant.Mul(mant, new(big.Int).Exp(big.NewInt(int64(base)), big.NewInt(int64(fp.n)), nil))
+		mant.Add(mant, fp.val)
+		fracDigits = fp.n
+	}
+	e := 0
+	if hex || g.r().Bool() {
+		switch g.r().Intn(6) {
+		case 0:
+			e = g.r().Range(900, 1200)
+		case 1:
+			e = g.r().Range(1201, 99999)
+		default:
+			e = g.r().Range(0, 80)
+		}
+		es := strconv.Itoa(e)
+		if usOdds > 0 && len(es) > 1 && g.r().Chance(1, usOdds) {
+			es = es[:1] + "_" + es[1:]
+		}
+		if g.r().Chance(1, 4) {
+			es = strings.Repeat("0", g.r().Range(1, 10)) + es
+		}
+		esg, eneg := g.randSign(true)
+		if eneg {
+			e = -e
+		}
+		ec := "e"
+		if hex {
+			ec = "p"
+		}
+		if g.r().Bool() {
+			ec = strings.ToUpper(ec)
+		}
+		text += ec + esg + es
+	}
+	var x float64
+	kind := "float-general"
+	if hex {
+		kind = "float-hex"
+		x = expectedHexFloat(neg, mant, e-4*fracDigits)
+	} else {
+		x = expectedFloat(neg, mant, e-fracDigits)
+	}
+	g.emit(g.litOp(), common.Hex(text), kind, show(x))
+}
+
+// legacyOctal: Go's `0 (_? d)+` integer form (010, 0_7), value in base 8.
+func (g *gen) legacyOctal(usOdds int) {
+	sg, neg := g.randSign(true)
+	d := g.randDigits(8, g.r().Range(1, 24), false, usOdds)
+	us := ""
+	if usOdds > 0 && g.r().Chance(1, 4) {
+		us = "_"
+	}
+	v := new(big.Int).Set(d.val)
+	if neg {
+		v.Neg(v)
+	}
+	g.emit(g.litOp(), common.Hex(sg+"0"+us+d.text), "int-oct0", show(canonInt(v)))
+}
+
 func (g *gen) litOp() string {
 	if g.r().Chance(1, 5) {
 		return "num"
@@ -651,7 +764,15 @@ func (g *gen) literals(n int) {
 		if g.r().Bool() {
 			usOdds = g.r().Range(2, 6)
 		}
-		switch g.r().Intn(10) {
+		switch g.r().Intn(12) {
+		case 10:
+			g.generalFloatLit(usOdds)
+		case 11:
+			if g.r().Bool() {
+				g.generalFloatLit(usOdds)
+			} else {
+				g.legacyOctal(usOdds)
+			}
 		case 0, 1, 2:
 			t, v, k := g.intLit(usOdds)
 			g.emit(g.litOp(), common.Hex(t), "int-"+k, show(canonInt(v)))
@@ -1018,6 +1139,7 @@ func run(c *common.Ctx) error {
 			"float64 bit patterns (specials, the 'f'/'e' switch neighbourhood, random bits, subnormals, NaN payloads, short decimals); " +
 			"int/big boundaries ±2^63±2 and random integers ≤300 bits; random and integral big rationals; literals generated from a grammar " +
 			"of the documented syntaxes (value computed from the digits with math/big, not by the parser) with random case/underscores/prefixes; " +
+			"the same for the complete grammars of round 2 (hex floats, .5, 5., legacy octal, exponent digits of any number); " +
 			"hex floats, long mantissas, huge exponents; 1–2 byte mutations of valid literals. Non-trivial = everything but short rejected strings; distinct by op line",
 		ExhaustiveNote: "all strings of ≤4 bytes (thorough ≤5) over an 11-letter number alphabet",
 		Gen:            generate,
